@@ -15,6 +15,7 @@ import (
 	"fmt"
 	"reflect"
 	"runtime"
+	"strings"
 	"sync/atomic"
 
 	"github.com/grailbio/bigslice/frame"
@@ -308,4 +309,97 @@ func trim(s string) string {
 		s = s[:len(s)-1]
 	}
 	return s
+}
+
+// ---- shared-column family ---------------------------------------------------------
+//
+// Two DIFFERENT frames may share a column (frame.Slices(keys, a) and
+// frame.Slices(keys, b)), and all slices of a zero-size element type share one base
+// address: whether two frames are "the same storage" cannot be decided from the first
+// column. Copies between such frames, at equal and at different offsets, are compared
+// with plain slices.
+
+func sharedColumnFamily(r *ev.Run, st *stats, opsSeen *ev.Counter) map[string]interface{} {
+	const n = 5
+	type firstCol struct {
+		name string
+		mk   func() reflect.Value // ONE slice shared by both frames
+	}
+	firsts := []firstCol{
+		{"shared-int-keys", func() reflect.Value { return widthTypes[5].slice(n, 1) }},
+		{"shared-string-keys", func() reflect.Value {
+			for _, t := range widthTypes {
+				if t.name == "string" {
+					return t.slice(n, 1)
+				}
+			}
+			panic("no string type")
+		}},
+		{"zero-size-struct{}", func() reflect.Value { return reflect.ValueOf(make([]struct{}, n)) }},
+	}
+	var cases int64
+	for _, fc := range firsts {
+		for _, vt := range widthTypes {
+			fail := func() (fail string) {
+				defer func() {
+					if rr := recover(); rr != nil {
+						if f, ok := rr.(failure); ok {
+							fail = f.what
+							return
+						}
+						fail = fmt.Sprintf("panic: %v", rr)
+					}
+				}()
+				for a := 0; a < n; a++ {
+					for c := 0; c < n; c++ {
+						for k := 1; a+k <= n && c+k <= n; k++ {
+							var k1, k2 reflect.Value
+							if fc.name == "zero-size-struct{}" {
+								k1, k2 = fc.mk(), fc.mk() // distinct slices, one base address
+							} else {
+								k1 = fc.mk()
+								k2 = k1
+							}
+							va, vb := vt.slice(n, 1), vt.slice(n, 40)
+							ma := vt.slice(n, 1)
+							mb := vt.slice(n, 40)
+							dst := frame.Values([]reflect.Value{k1, va})
+							src := frame.Values([]reflect.Value{k2, vb})
+							if got := frame.Copy(dst.Slice(a, a+k), src.Slice(c, c+k)); got != k {
+								failf("Copy(dst[%d:%d], src[%d:%d]) returned %d", a, a+k, c, c+k, got)
+							}
+							reflect.Copy(ma.Slice(a, a+k), mb.Slice(c, c+k))
+							if g, w := dst.Interface(1), ma.Interface(); !reflect.DeepEqual(g, w) {
+								failf("after Copy(dst[%d:%d], src[%d:%d]) between two frames that share their first column, dst's value column = %v, model %v", a, a+k, c, c+k, g, w)
+							}
+							if g, w := src.Interface(1), mb.Interface(); !reflect.DeepEqual(g, w) {
+								failf("Copy altered its source: %v, model %v", g, w)
+							}
+							atomic.AddInt64(&cases, 1)
+						}
+					}
+				}
+				return ""
+			}()
+			if fail != "" {
+				class := fail
+				for k, c := range class {
+					if c == '=' || c == '(' || c == ':' {
+						class = class[:k]
+						break
+					}
+				}
+				if strings.HasPrefix(fail, "after Copy") {
+					class = "value-column-not-copied"
+				}
+				r.Violate(fmt.Sprintf("C11/shared-column/%s/%s", fc.name, trim(class)),
+					fmt.Sprintf("frames (%s, %s): %s", fc.name, vt.name, fail), map[string]interface{}{"first_column": fc.name, "value_type": vt.name, "failure": fail})
+			}
+		}
+	}
+	opsSeen.Add("shared-column:Copy")
+	atomic.AddInt64(&st.seqs, cases)
+	atomic.AddInt64(&st.steps, cases)
+	return map[string]interface{}{"first_columns": []string{"shared-int-keys", "shared-string-keys", "zero-size-struct{}"}, "value_types": len(widthTypes), "copies": cases,
+		"rule": "two different two-column frames whose first column is the same slice (or a zero-size element type: one base address for all slices); every Copy(dst[a:a+k], src[c:c+k]) with 5 rows, equal and different offsets; value columns compared with plain slices"}
 }
